@@ -189,13 +189,7 @@ class MasterGen:
         r = self.rng
         tree2 = copy.deepcopy(nodes)
 
-        def freeze(ns):
-            for n in ns:
-                if n["k"] == "s":
-                    if n.get("dis_further"):
-                        n["dis_further"] = {"frozen": copy.deepcopy(dis_example(n))}
-                    freeze(n["kids"])
-        freeze(tree2)
+        freeze_examples(tree2)
 
         targets = []        # (path, kids list, inside a .multiple scope, kind of the enclosing scopes)
 
@@ -283,6 +277,59 @@ class MasterGen:
             else:
                 text += ".".join(path) + " {\n" + body + "}\n"
         return tree2, text, tags
+
+
+    def default_change(self, nodes):
+        """A change of ONE default of a master that is applied IN PLACE by assigning `definition.words` (the public
+        attribute of a definition object; what a configuration front-end does to a master it was handed): one active
+        parameter gets another valid value of its type, everything else stays.  Parameters whose value is part of a
+        template (.multiple themselves or inside a .multiple scope) are drawn three times as often as the others.
+        Returns (tree2, path components, new value text, tags), or (nodes, None, None, []) when nothing can be drawn."""
+        import copy
+        r = self.rng
+        tree2 = copy.deepcopy(nodes)
+        freeze_examples(tree2)
+        cands = []
+
+        def walk(ns, path, in_multiple, seen_kind):
+            seen = set()
+            for n in ns:
+                if n["dis"] or n["name"] in seen:
+                    continue
+                seen.add(n["name"])
+                if n["k"] == "s":
+                    walk(n["kids"], path + (n["name"],), in_multiple or n["multiple"], seen_kind)
+                    continue
+                t = n["type"]
+                if t and t.startswith("choice"):
+                    alts = [w.lstrip("*") for w in n["default"].split()]
+                    k = r.sample(alts, 2 if (t != "choice" and len(alts) > 2 and r.random() < 0.3) else 1)
+                    vals = [" ".join(("*" if a in k else "") + a for a in alts)]
+                else:
+                    vals = list(TYPES[t][1]) + list(TYPES[t][0])
+                vals = [v for v in vals if v != n["default"]]
+                if not vals:
+                    continue
+                templ = in_multiple or n["multiple"]
+                cands.extend([(path + (n["name"],), n, vals, templ)] * (3 if templ else 1))
+        walk(tree2, (), False, None)
+        if not cands:
+            return nodes, None, None, []
+        path, node, vals, templ = r.choice(cands)
+        node["default"] = r.choice(vals)
+        tag = "words_of_" + ("multiple_definition" if node["multiple"] else "parameter_in_multiple_scope" if templ else "plain_parameter")
+        return tree2, list(path), node["default"], [tag]
+
+
+def freeze_examples(ns):
+    """fix the content of the commented-out example instances (`!s { ... }` after a .multiple scope) as rendered now: a
+    master changed in place keeps the example block it was parsed with"""
+    import copy
+    for n in ns:
+        if n["k"] == "s":
+            if n.get("dis_further"):
+                n["dis_further"] = {"frozen": copy.deepcopy(dis_example(n))}
+            freeze_examples(n["kids"])
 
 
 def attr_lines(node, indent):
